@@ -122,6 +122,9 @@ def fold( e, env=None ):
             return base.get( *[ fold( a, env ) for a in e.args ] )
     if isinstance( e, ast.Dict ) and all( k is not None for k in e.keys ):
         return { fold( k, env ): fold( v, env ) for k, v in zip( e.keys, e.values ) }
+    if isinstance( e, ast.Call ) and isinstance( e.func, ast.Name ) and isinstance( env, dict ) and ( 'call:' + e.func.id ) in env and not e.keywords:
+        # a helper of the analysed file, made available by the rule ( see helper_calls ): evaluated on the folded arguments
+        return env['call:' + e.func.id]( *[ fold( a, env ) for a in e.args ] )
     if isinstance( e, ast.Call ) and isinstance( e.func, ast.Name ) and e.func.id in _SAFE_BUILTINS and _SAFE_BUILTINS[e.func.id] is not None and not e.keywords:
         args = [ fold( a, env ) for a in e.args ]
         try:
@@ -275,3 +278,36 @@ def run_block( stmts, env, ignore_calls=(), stop_at_yield=True ):
             return Outcome( 'break', None, st )
         raise NoFold( 'statement kind %s' % type( st ).__name__ )
     return Outcome( 'fall' )
+
+
+
+def helper_calls( tree, ignore_calls=() ):
+    """{ 'call:<name>': callable } for the module-level functions of a parsed file whose body is a loop-free decision fragment: a decision
+    moved into a small helper ( transfer_limit( address ), bank( address ) ... ) is evaluated where it is called.  The callable raises
+    NoFold when the helper is more than that."""
+    out = {}
+    defs = { f.name: f for f in tree.body if isinstance( f, ast.FunctionDef ) }
+    def make( f ):
+        def call( *args ):
+            params = [ a.arg for a in f.args.args ]
+            if len( args ) > len( params ) or f.args.vararg or f.args.kwarg:
+                raise NoFold( 'helper %s: arguments' % f.name )
+            env = dict( out )
+            dflt = f.args.defaults
+            for k, p_ in enumerate( params ):
+                if k < len( args ):
+                    env[p_] = args[k]
+                elif k >= len( params ) - len( dflt ):
+                    env[p_] = fold( dflt[k - ( len( params ) - len( dflt ))] )
+                else:
+                    raise NoFold( 'helper %s: missing argument %s' % ( f.name, p_ ))
+            r = run_block( f.body, env, ignore_calls=ignore_calls )
+            if r.kind == 'return':
+                return r.value
+            if r.kind == 'fall':
+                return None
+            raise NoFold( 'helper %s ends by %s' % ( f.name, r.kind ))
+        return call
+    for name, f in defs.items():
+        out['call:' + name] = make( f )
+    return out
